@@ -93,6 +93,86 @@ def r1_key_presence(ctx):
                       "without testing its presence")
 
 
+def _stmt_lists(f):
+    """every statement list in `f` (nested functions excluded)"""
+    out = []
+    todo = [f]
+    while todo:
+        n = todo.pop()
+        for fld in ("body", "orelse", "finalbody"):
+            b = getattr(n, fld, None)
+            if isinstance(b, list) and b and isinstance(b[0], ast.stmt):
+                out.append((n, b))
+                for st in b:
+                    if not isinstance(st, (ast.FunctionDef, ast.ClassDef,
+                                           ast.AsyncFunctionDef)):
+                        todo.append(st)
+        for h in getattr(n, "handlers", []) or []:
+            todo.append(h)
+        for c_ in getattr(n, "cases", []) or []:
+            todo.append(c_)
+    return out
+
+
+def stored_value_defs(f, store, name):
+    """values that can be bound to the local `name` when the statement
+    `store` runs: backwards through the enclosing statement lists; a
+    compound statement that binds the name contributes all its bindings
+    (over-approximation), a plain assignment ends the search."""
+    lists = _stmt_lists(f)
+    cur = store
+    found = []
+    while True:
+        owner = next(((o, b) for o, b in lists if any(x is cur for x in b)),
+                     None)
+        if owner is None:
+            return found
+        o, b = owner
+        i = next(k for k, x in enumerate(b) if x is cur)
+        for st in reversed(b[:i]):
+            if isinstance(st, ast.Assign) and any(
+                    isinstance(t, ast.Name) and t.id == name
+                    for t in st.targets):
+                found.append(st.value)
+                return found
+            inner = [a.value for a in ast.walk(st)
+                     if isinstance(a, ast.Assign) and any(
+                         isinstance(t, ast.Name) and t.id == name
+                         for t in a.targets)]
+            if inner:
+                found.extend(inner)
+                return found
+        if o is f:
+            return found
+        cur = o
+
+
+def placeholder_never_cached(ctx, rq):
+    """the stand-in returned without rating (regressor 'none': -1) is not a
+    rating: it is never written into the cache the rating map and
+    get_rating_parameters read"""
+    for st in walk_no_nested(rq, False):
+        if not (isinstance(st, ast.Assign)
+                and dotted(st.targets[0]) == "self._rating"
+                and isinstance(st.value, ast.Tuple) and st.value.elts):
+            continue
+        last = st.value.elts[-1]
+        vals = [last]
+        if isinstance(last, ast.Name):
+            vals = stored_value_defs(rq, st, last.id)
+        for v in vals:
+            lit = literal(v)
+            ctx.check(not (isinstance(lit, (int, float))
+                           and not isinstance(lit, bool)), st,
+                      f"cached rating value <- {norm(v)[:40]}",
+                      f"rate_quality stores the placeholder `{norm(v)}` "
+                      "(returned when no rating is made) in the rating "
+                      "cache: the rating map and get_rating_parameters then "
+                      "show it as the curve's rating for the current fit "
+                      "instead of NaN / 'not rated'")
+
+
+
 def r2_cache_key(ctx):
     ind = ctx.repo.mod("indent")
     rq = ind.func("Indentation.rate_quality")
@@ -173,6 +253,25 @@ def r2_cache_key(ctx):
                       f"`{x}` compared at its stored position {pos}",
                       f"`{x}` is stored at position {pos} but compared with "
                       f"position {c[0]}")
+    placeholder_never_cached(ctx, rq)
+    # an argument documented as a list is remembered as a copy: a cache
+    # that keeps the caller's list compares the list with itself after an
+    # in-place edit and returns the rating of the previous selection
+    doc = ast.get_docstring(rq) or ""
+    import re as _re
+    listy = set(_re.findall(r"^\s*(\w+)\s*:\s*list\b", doc, _re.M))
+    rebound = {t.id for a in walk_no_nested(rq, False)
+               if isinstance(a, (ast.Assign, ast.AugAssign, ast.AnnAssign))
+               for t in (a.targets if isinstance(a, ast.Assign)
+                         else [a.target]) if isinstance(t, ast.Name)}
+    for e in elts:
+        if isinstance(e, ast.Name) and e.id in listy and \
+                e.id in func_params(rq) and e.id not in rebound:
+            ctx.fail(e, f"cache keeps the caller's list `{e.id}`",
+                     f"the rating cache stores the caller's `{e.id}` list "
+                     "itself: after an in-place edit of that list the "
+                     "cache test compares the list with itself and the "
+                     "rating of the previous feature selection is returned")
     # value position: last; readers agree
     ctx.check(len(layout) == len(needed) + 1, stores[0],
               f"cache layout {layout}", "unexpected cache layout")
